@@ -37,12 +37,12 @@ fn sched_db(periods: &[(usize, u32)]) -> (SchedulesDb, Uuid) {
     let pats = week_patterns();
     let mut db = SchedulesDb::default();
     for i in 0..7 {
-        db.day.push(ScheduleDay { id: uid(&format!("d{i}")), name: format!("d{i}"), values: vec![i as f32; 24] });
+        db.day.push(ScheduleDay { id: uid(&format!("d{i}")), name: format!("d{i}"), values: vec![i as f32; 24], ..Default::default() });
     }
     for (k, (_, p)) in pats.iter().enumerate() {
-        db.week.push(ScheduleWeek { id: uid(&format!("w{k}")), name: format!("w{k}"), values: p.iter().map(|(d, c)| (uid(&format!("d{d}")), *c)).collect() });
+        db.week.push(ScheduleWeek { id: uid(&format!("w{k}")), name: format!("w{k}"), values: p.iter().map(|(d, c)| (uid(&format!("d{d}")), *c)).collect(), ..Default::default() });
     }
-    let y = Schedule { id: uid("y"), name: "y".into(), values: periods.iter().map(|(w, c)| (uid(&format!("w{w}")), *c)).collect() };
+    let y = Schedule { id: uid("y"), name: "y".into(), values: periods.iter().map(|(w, c)| (uid(&format!("w{w}")), *c)).collect(), ..Default::default() };
     let id = y.id;
     db.year.push(y);
     (db, id)
@@ -208,17 +208,17 @@ fn profile(i: usize) -> Vec<f32> {
 
 /// spaces: each (kind, inside, mult, schedule index, profile weekday, profile weekend)
 fn occ_model(spaces: &[(usize, usize, usize, usize)], sched_profiles: &[(usize, usize)]) -> Model {
-    let mut m = Model { meta: meta(zone("D3")), ..Default::default() };
+    let mut m = model_with_meta(meta(zone("D3")));
     let wc = std_cons(&mut m);
     let kinds = [SpaceType::CONDITIONED, SpaceType::UNCONDITIONED, SpaceType::UNINHABITED];
     for (k, (pw, pe)) in sched_profiles.iter().enumerate() {
-        m.schedules.day.push(ScheduleDay { id: uid(&format!("dw{k}")), name: format!("dw{k}"), values: profile(*pw) });
-        m.schedules.day.push(ScheduleDay { id: uid(&format!("de{k}")), name: format!("de{k}"), values: profile(*pe) });
-        m.schedules.week.push(ScheduleWeek { id: uid(&format!("wk{k}")), name: format!("wk{k}"), values: vec![(uid(&format!("dw{k}")), 5), (uid(&format!("de{k}")), 2)] });
-        m.schedules.week.push(ScheduleWeek { id: uid(&format!("wh{k}")), name: format!("wh{k}"), values: vec![(uid(&format!("de{k}")), 7)] });
+        m.schedules.day.push(ScheduleDay { id: uid(&format!("dw{k}")), name: format!("dw{k}"), values: profile(*pw), ..Default::default() });
+        m.schedules.day.push(ScheduleDay { id: uid(&format!("de{k}")), name: format!("de{k}"), values: profile(*pe), ..Default::default() });
+        m.schedules.week.push(ScheduleWeek { id: uid(&format!("wk{k}")), name: format!("wk{k}"), values: vec![(uid(&format!("dw{k}")), 5), (uid(&format!("de{k}")), 2)], ..Default::default() });
+        m.schedules.week.push(ScheduleWeek { id: uid(&format!("wh{k}")), name: format!("wh{k}"), values: vec![(uid(&format!("de{k}")), 7)], ..Default::default() });
         // summer holiday period in the middle: three periods partitioning 365
-        m.schedules.year.push(Schedule { id: uid(&format!("y{k}")), name: format!("y{k}"), values: vec![(uid(&format!("wk{k}")), 181), (uid(&format!("wh{k}")), 31), (uid(&format!("wk{k}")), 153)] });
-        m.loads.push(SpaceLoads { id: uid(&format!("l{k}")), name: format!("l{k}"), area_per_person: 10.0, people_schedule: Some(uid(&format!("y{k}"))), people_sensible: 6.0 + k as f32, people_latent: 3.0, equipment: 4.4, equipment_schedule: Some(uid(&format!("y{}", (k + 1) % sched_profiles.len()))), lighting: 2.5 * (k + 1) as f32, lighting_schedule: Some(uid(&format!("y{k}"))) });
+        m.schedules.year.push(Schedule { id: uid(&format!("y{k}")), name: format!("y{k}"), values: vec![(uid(&format!("wk{k}")), 181), (uid(&format!("wh{k}")), 31), (uid(&format!("wk{k}")), 153)], ..Default::default() });
+        m.loads.push(SpaceLoads { id: uid(&format!("l{k}")), name: format!("l{k}"), area_per_person: 10.0, people_schedule: Some(uid(&format!("y{k}"))), people_sensible: 6.0 + k as f32, people_latent: 3.0, equipment: 4.4, equipment_schedule: Some(uid(&format!("y{}", (k + 1) % sched_profiles.len()))), lighting: 2.5 * (k + 1) as f32, lighting_schedule: Some(uid(&format!("y{k}"))), ..Default::default() });
     }
     for (i, (kind, inside, mult, sch)) in spaces.iter().enumerate() {
         let mut s = space(&format!("s{i}"), kinds[*kind], *inside == 0, 3.0);
